@@ -53,11 +53,11 @@ package crlloader
 // certificate (after url.Parse normalisation): same location, same store across restarts; no folding of distinct
 // locations onto one store other than through the hash.
 //@ func URLLoader.GetCRLLocationIdentifier
-//@   props C20 C01 C11
-//@   ensures[C20,C01,C11,C10] id_is_digest_of_the_location: err == nil ==> ret == locId(normUrl(L.UrlString))
+//@   props C20 C01 C11 C10 C15
+//@   ensures[C20,C01,C11,C10,C15] id_is_digest_of_the_location: err == nil ==> ret == locId(normUrl(L.UrlString))
 //@ func FileLoader.GetCRLLocationIdentifier
-//@   props C20 C01 C11
-//@   ensures[C20,C01,C11,C10] id_is_digest_of_the_location: err == nil ==> ret == locId(f.FileName)
+//@   props C20 C01 C11 C10 C15
+//@   ensures[C20,C01,C11,C10,C15] id_is_digest_of_the_location: err == nil ==> ret == locId(f.FileName)
 //@ func URLLoader.downloadCRL
 //@   props C17 C20
 //@   requires L != nil
